@@ -288,9 +288,10 @@ def obligations(tier):
                      bounds=f"2 dims, sizes/chunks <= {Q}, itemsize 1..2, min_mem up to {2*Q}, max_mem up to {4*Q}: tight budgets force 2-4 stages", **common))
     # transposition-like 2-d rechunks (c0, 1) -> (1, t1): the geometry where multi-stage plans arise and where read chunks
     # are not multiples of intermediate stage chunks (multi-stage needs >= 2 dims: in 1-d the intermediate never grows)
-    T = 7 if tier == "quick" else 10
+    T = 6 if tier == "quick" else 10
+    TL = T if tier == "quick" else 2  # quick: extents fixed to 6 (smallest size where a read chunk is not a multiple of the stage chunk)
     for regular in (0, 1):
-        vs = [("n0", 2, T), ("n1", 2, T), ("c0", 1, T), ("c1", 1, 1), ("t0", 1, 1), ("t1", 1, T), ("isz", 1, 1), ("mn", 0, 6 if tier == "quick" else 12), ("mx", 0, 10 if tier == "quick" else 20)]
+        vs = [("n0", TL, T), ("n1", TL, T), ("c0", 1, T), ("c1", 1, 1), ("t0", 1, 1), ("t1", 1, T), ("isz", 1, 1), ("mn", 0, 6 if tier == "quick" else 12), ("mx", 0, 10 if tier == "quick" else 20)]
         o.append(Obl(f"plan[{'regular' if regular else 'irregular'},2d,transpose-like,multi-stage]", (lambda regular: lambda **kw: plan_nd(2, regular, **kw))(regular), vs,
                      bounds=f"shape <= {T}x{T}, source chunks (c0, 1), target chunks (1, t1), itemsize 1, tight min_mem/max_mem (geometry forked by value, budgets symbolic)", **common))
 
@@ -298,7 +299,7 @@ def obligations(tier):
         plan_nd(2, 1, _twin_multi=True, **kw)
 
     o.append(Obl("twin:plan[regular,2d,transpose-like,multi-stage]", twin1,
-                 [("n0", 2, T), ("n1", 2, T), ("c0", 1, T), ("c1", 1, 1), ("t0", 1, 1), ("t1", 1, T), ("isz", 1, 1), ("mn", 0, 6), ("mx", 0, 10)],
+                 [("n0", TL, T), ("n1", TL, T), ("c0", 1, T), ("c1", 1, 1), ("t0", 1, 1), ("t1", 1, T), ("isz", 1, 1), ("mn", 0, 6), ("mx", 0, 10)],
                  allowed=ALLOWED, setup=setup, twin_of="plan[regular,2d,transpose-like,multi-stage]", wall_s=wall))
     o.append(Obl("multspace", multspace_h, [("a", 1, 40 if tier == "quick" else 150), ("b", 1, 40 if tier == "quick" else 150), ("num", 0, 3)],
                  bounds="endpoints <= 40 (150), 0..3 interior values; value-forked (solver-enumerated concrete values, real np.geomspace)", **common))
